@@ -647,6 +647,8 @@ def rule_range(ctx):
         ctx.holds("C07.RANGE", ci.short, f"{n} declared ranges (defaults, ordinary, exponent-form floats, integers) are carried unchanged", ci=ci)
 
 
+EXPLANATION = EXPLANATION + " C07.RANGE: DefNumber is constructed (abstractly, by its real constructor chain with the validators inlined) with five declared ranges - the defaults, an ordinary range, a very fine step (0.00001, str() in exponent form), a very wide range (+-1e20) and integers: construction must not raise and min / max / step must be carried unchanged."
+
 RULES = [
     ("C07.RANGE", rule_range, "a number definition carries any declared min / max / step (also 1e-05, 1e20) unchanged"),
     ("C07.META", rule_meta, "every emitted field comes from the right source (own definition/state/group/device; element format)"),
